@@ -228,118 +228,15 @@ func c06RuleDefaults(c *Ctx, e *c05Eng, tabs map[string]*c06Table) {
 			c.ok("C06.a", key, en.call.Pos(), "the value passed by the dispatcher is already >= 1")
 			return
 		}
-		// uses of the parameter inside the handler
+		// uses of the parameter inside the handler (and inside the helpers it hands the raw value to)
 		cf := en.callee
-		cinfo := cf.Pkg.TypesInfo
-		parents := c.P.Parents(cf.Pkg)
 		var pobj types.Object
 		for _, f := range cf.Decl.Type.Params.List {
 			for _, nme := range f.Names {
-				pobj = cinfo.Defs[nme]
+				pobj = cf.Pkg.TypesInfo.Defs[nme]
 			}
 		}
-		var badUse []string
-		var badPos token.Pos
-		nUses := 0
-		pkey := fmt.Sprintf("v%p", pobj)
-		shKey := pkey + "#param"
-		e.disp[shKey] = pobj.Name() + " (as passed, after default normalisation)"
-		e.shadow = map[string]string{pkey: shKey}
-		recomputed := false
-		ast.Inspect(cf.Decl.Body, func(m ast.Node) bool {
-			if as, ok := m.(*ast.AssignStmt); ok {
-				for i, l := range as.Lhs {
-					if id, ok := unparen(l).(*ast.Ident); ok && cinfo.ObjectOf(id) == pobj {
-						if as.Tok != token.ASSIGN || i >= len(as.Rhs) {
-							recomputed = true
-						} else if _, isConst := constInt(cinfo, as.Rhs[i]); !isConst {
-							recomputed = true
-						}
-					}
-				}
-			}
-			return true
-		})
-		e.hooks = []c05Hook{func(e *c05Eng, fr *c05Frame, n ast.Node, st *c05State) {
-			if st == nil || st.env == nil {
-				return
-			}
-			inspectNoLit(n, func(m ast.Node) bool {
-				id, ok := m.(*ast.Ident)
-				if !ok || cinfo.Uses[id] != pobj {
-					return true
-				}
-				// classify
-				var par ast.Node = parents[id]
-				for {
-					if p, ok := par.(*ast.ParenExpr); ok {
-						par = parents[p]
-						continue
-					}
-					break
-				}
-				switch p := par.(type) {
-				case *ast.BinaryExpr:
-					switch p.Op {
-					case token.EQL, token.NEQ, token.LSS, token.LEQ, token.GTR, token.GEQ:
-						other := p.Y
-						if unparen(p.Y) == ast.Expr(id) {
-							other = p.X
-						}
-						if _, isConst := constInt(cinfo, other); isConst {
-							return true // a test of the parameter, not a use
-						}
-					}
-				case *ast.AssignStmt:
-					for _, l := range p.Lhs {
-						if unparen(l) == ast.Expr(id) {
-							return true
-						}
-					}
-				}
-				// inside the right-hand side of an assignment to the parameter itself (p = oneIfZero(p),
-				// p = max(p, 1), p = p): the result is what the later uses see, and they are checked
-				selfAssign := false
-				for cur := ast.Node(id); cur != nil; cur = parents[cur] {
-					if as, ok := cur.(*ast.AssignStmt); ok {
-						if len(as.Lhs) == 1 && len(as.Rhs) == 1 {
-							if lid, ok := unparen(as.Lhs[0]).(*ast.Ident); ok && cinfo.ObjectOf(lid) == pobj && as.Rhs[0].Pos() <= id.Pos() && id.End() <= as.Rhs[0].End() {
-								selfAssign = true
-							}
-						}
-						break
-					}
-					if _, ok := cur.(ast.Stmt); ok {
-						break
-					}
-				}
-				if selfAssign {
-					return true
-				}
-				nUses++
-				s2 := st.clone()
-				one := c05Atom(shKey).neg()
-				one.k += 1
-				if !e.prove(s2, one) {
-					badUse = append(badUse, fmt.Sprintf("%s (%s)", c.P.Pos(id.Pos()), e.showVal(e.evalLin(s2, c05Atom(shKey)))))
-					if badPos == 0 {
-						badPos = id.Pos()
-					}
-				}
-				return true
-			})
-		}}
-		e.analyse(cf, func(fr *c05Frame, st *c05State) {
-			v := e.setBound(st, pkey)
-			sv := v.clone()
-			sv.addLo(pkey, 0)
-			sv.addHi(pkey, 0)
-			v.addLo(shKey, 0)
-			v.addHi(shKey, 0)
-			st.env[shKey] = sv
-		})
-		e.hooks = nil
-		e.shadow = nil
+		nUses, badUse, badPos, recomputed := c06ParamUses(c, e, cf, pobj, 0, map[*FuncInfo]bool{})
 		switch {
 		case asInfo:
 			if len(badUse) > 0 {
@@ -361,6 +258,193 @@ func c06RuleDefaults(c *Ctx, e *c05Eng, tabs map[string]*c06Table) {
 	for _, k := range c06DefaultOneInfo {
 		check(k, true)
 	}
+}
+
+// c06ParamUses analyses cf with its count parameter pobj possibly 0 at entry and classifies every use of the
+// parameter: tests against constants and the parameter's own normalisation are not uses; every other use must see
+// a value >= 1. A use that only hands the (possibly zero) value to a helper of the package is judged by the
+// helper's own uses of the corresponding parameter (the normalisation may have been extracted with the clamp).
+func c06ParamUses(c *Ctx, e *c05Eng, cf *FuncInfo, pobj types.Object, depth int, busy map[*FuncInfo]bool) (nUses int, badUse []string, badPos token.Pos, recomputed bool) {
+	cinfo := cf.Pkg.TypesInfo
+	parents := c.P.Parents(cf.Pkg)
+	type handOff struct {
+		callee *FuncInfo
+		param  types.Object
+		pos    token.Pos
+		val    string
+	}
+	var handed []handOff
+	pkey := fmt.Sprintf("v%p", pobj)
+	shKey := pkey + "#param"
+	e.disp[shKey] = pobj.Name() + " (as passed, after default normalisation)"
+	e.shadow = map[string]string{pkey: shKey}
+	ast.Inspect(cf.Decl.Body, func(m ast.Node) bool {
+		if as, ok := m.(*ast.AssignStmt); ok {
+			for i, l := range as.Lhs {
+				if id, ok := unparen(l).(*ast.Ident); ok && cinfo.ObjectOf(id) == pobj {
+					if as.Tok != token.ASSIGN || i >= len(as.Rhs) {
+						recomputed = true
+					} else if _, isConst := constInt(cinfo, as.Rhs[i]); !isConst {
+						recomputed = true
+					}
+				}
+			}
+		}
+		return true
+	})
+	e.hooks = []c05Hook{func(e *c05Eng, fr *c05Frame, n ast.Node, st *c05State) {
+		if st == nil || st.env == nil {
+			return
+		}
+		inspectNoLit(n, func(m ast.Node) bool {
+			id, ok := m.(*ast.Ident)
+			if !ok || cinfo.Uses[id] != pobj {
+				return true
+			}
+			// classify
+			var par ast.Node = parents[id]
+			for {
+				if p, ok := par.(*ast.ParenExpr); ok {
+					par = parents[p]
+					continue
+				}
+				break
+			}
+			switch p := par.(type) {
+			case *ast.BinaryExpr:
+				switch p.Op {
+				case token.EQL, token.NEQ, token.LSS, token.LEQ, token.GTR, token.GEQ:
+					other := p.Y
+					if unparen(p.Y) == ast.Expr(id) {
+						other = p.X
+					}
+					if _, isConst := constInt(cinfo, other); isConst {
+						return true // a test of the parameter, not a use
+					}
+				}
+			case *ast.AssignStmt:
+				for _, l := range p.Lhs {
+					if unparen(l) == ast.Expr(id) {
+						return true
+					}
+				}
+			}
+			// inside the right-hand side of an assignment to the parameter itself (p = oneIfZero(p),
+			// p = max(p, 1), p = p): the result is what the later uses see, and they are checked
+			selfAssign := false
+			for cur := ast.Node(id); cur != nil; cur = parents[cur] {
+				if as, ok := cur.(*ast.AssignStmt); ok {
+					if len(as.Lhs) == 1 && len(as.Rhs) == 1 {
+						if lid, ok := unparen(as.Lhs[0]).(*ast.Ident); ok && cinfo.ObjectOf(lid) == pobj && as.Rhs[0].Pos() <= id.Pos() && id.End() <= as.Rhs[0].End() {
+							selfAssign = true
+						}
+					}
+					break
+				}
+				if _, ok := cur.(ast.Stmt); ok {
+					break
+				}
+			}
+			if selfAssign {
+				return true
+			}
+			nUses++
+			s2 := st.clone()
+			one := c05Atom(shKey).neg()
+			one.k += 1
+			if !e.prove(s2, one) {
+				val := e.showVal(e.evalLin(s2, c05Atom(shKey)))
+				// handed as it is (conversions aside) to a helper of the package?
+				var arg ast.Node = id
+				up := parents[arg]
+				for {
+					if p, ok := up.(*ast.ParenExpr); ok {
+						arg, up = p, parents[p]
+						continue
+					}
+					if cv, ok := up.(*ast.CallExpr); ok && len(cv.Args) == 1 && cv.Args[0] == arg {
+						if tv, ok := cinfo.Types[cv.Fun]; ok && tv.IsType() && isIntType(tv.Type) {
+							arg, up = cv, parents[cv]
+							continue
+						}
+					}
+					break
+				}
+				if call, ok := up.(*ast.CallExpr); ok && depth < 3 {
+					if fn := calleeOf(cinfo, call); fn != nil {
+						if hf := c.P.FuncOfObj(fn); hf != nil && hf.Pkg == e.pk && hf.Decl.Body != nil && hf != cf && !busy[hf] {
+							sig := fn.Type().(*types.Signature)
+							for ai, a := range call.Args {
+								if a == arg && ai < sig.Params().Len() && !sig.Variadic() && e.isCountType(sig.Params().At(ai).Type()) {
+									if hp := c06ParamObj(hf, ai); hp != nil {
+										handed = append(handed, handOff{callee: hf, param: hp, pos: id.Pos(), val: val})
+										return true
+									}
+								}
+							}
+						}
+					}
+				}
+				badUse = append(badUse, fmt.Sprintf("%s (%s)", c.P.Pos(id.Pos()), val))
+				if badPos == 0 {
+					badPos = id.Pos()
+				}
+			}
+			return true
+		})
+	}}
+	e.analyse(cf, func(fr *c05Frame, st *c05State) {
+		v := e.setBound(st, pkey)
+		sv := v.clone()
+		sv.addLo(pkey, 0)
+		sv.addHi(pkey, 0)
+		v.addLo(shKey, 0)
+		v.addHi(shKey, 0)
+		st.env[shKey] = sv
+	})
+	e.hooks = nil
+	e.shadow = nil
+	busy[cf] = true
+	for _, h := range handed {
+		n2, bad2, pos2, rec2 := c06ParamUses(c, e, h.callee, h.param, depth+1, busy)
+		if n2 == 0 {
+			// the helper ignores the value: the hand-off itself is the (harmless) use
+			continue
+		}
+		if rec2 {
+			recomputed = true
+		}
+		if len(bad2) > 0 {
+			badUse = append(badUse, bad2...)
+			if badPos == 0 {
+				badPos = h.pos
+			}
+			_ = pos2
+		}
+	}
+	delete(busy, cf)
+	return
+}
+
+// c06ParamObj: the object of the i-th parameter of a declared function (nil if unnamed).
+func c06ParamObj(fi *FuncInfo, i int) types.Object {
+	n := 0
+	for _, f := range fi.Decl.Type.Params.List {
+		if len(f.Names) == 0 {
+			n++
+			continue
+		}
+		for _, nme := range f.Names {
+			if n == i {
+				if nme.Name == "_" {
+					return nil
+				}
+				return fi.Pkg.TypesInfo.Defs[nme]
+			}
+			n++
+		}
+	}
+	return nil
 }
 
 // ---------------------------------------------------------------- C06.c erase background
@@ -851,6 +935,9 @@ type c06Out struct {
 	kind int // 0 falls through, 1 continue, 2 break, 3 return
 	st   *c05State
 	effs []c06Eff
+	// ret: the (single, integer) result of a return statement, as a linear form in the state st
+	ret    c05Lin
+	hasRet bool
 }
 
 type c06X struct {
@@ -984,7 +1071,11 @@ func (x *c06X) execStmt(fr *c05Frame, s ast.Stmt, st *c05State, effs []c06Eff) [
 		x.undecided("%s statement", t.Tok)
 		return nil
 	case *ast.ReturnStmt:
-		return one(3, st, effs)
+		outs := one(3, st, effs)
+		if len(outs) == 1 && len(t.Results) == 1 && isIntegerExpr(fr.info, t.Results[0]) {
+			outs[0].ret, outs[0].hasRet = e.linOf(fr, st, t.Results[0]), true
+		}
+		return outs
 	case *ast.ForStmt, *ast.RangeStmt:
 		if x.loopHook != nil {
 			if outs, ok := x.loopHook(fr, s, st, effs); ok {
@@ -1045,6 +1136,11 @@ func (x *c06X) execStmt(fr *c05Frame, s ast.Stmt, st *c05State, effs []c06Eff) [
 				return nil
 			}
 		}
+		// n := f(ps) with a helper that decides between several results: the helper is executed path by path
+		// (as the same statements would be if they stood here), not summarised by a join
+		if call, cf := x.branchyCall(fr, s); call != nil {
+			return x.execViaCall(fr, s, call, cf, st, effs)
+		}
 		e.transfer(fr, st, s)
 		return one(0, st, effs)
 	}
@@ -1052,8 +1148,95 @@ func (x *c06X) execStmt(fr *c05Frame, s ast.Stmt, st *c05State, effs []c06Eff) [
 	return nil
 }
 
+// branchyCall: the only call, in a simple statement, of a package function with a body that returns one integer
+// from two or more return statements (a clamp / default helper), called on the terminal or without receiver.
+func (x *c06X) branchyCall(fr *c05Frame, s ast.Stmt) (*ast.CallExpr, *FuncInfo) {
+	e := x.e
+	var found *ast.CallExpr
+	var ffi *FuncInfo
+	n := 0
+	ast.Inspect(s, func(m ast.Node) bool {
+		if _, isLit := m.(*ast.FuncLit); isLit {
+			return false
+		}
+		call, ok := m.(*ast.CallExpr)
+		if !ok {
+			return true
+		}
+		fn := calleeOf(fr.info, call)
+		if fn == nil {
+			return true
+		}
+		cf := x.c.P.FuncOfObj(fn)
+		if cf == nil || cf.Pkg != e.pk || cf.Decl.Body == nil {
+			return true
+		}
+		sig := fn.Type().(*types.Signature)
+		if sig.Results().Len() != 1 || !isIntType(sig.Results().At(0).Type()) {
+			return true
+		}
+		rets := 0
+		inspectNoLit(cf.Decl.Body, func(k ast.Node) bool {
+			if _, ok := k.(*ast.ReturnStmt); ok {
+				rets++
+			}
+			return true
+		})
+		if rets < 2 {
+			return true
+		}
+		n++
+		found, ffi = call, cf
+		return true
+	})
+	if n != 1 || x.depth > 4 {
+		return nil, nil
+	}
+	return found, ffi
+}
+
+// execViaCall executes the callee of the call inside statement s on every path, then s itself with the call
+// standing for the value returned on that path.
+func (x *c06X) execViaCall(fr *c05Frame, s ast.Stmt, call *ast.CallExpr, cf *FuncInfo, st *c05State, effs []c06Eff) []c06Out {
+	e := x.e
+	// arguments are evaluated in the caller before anything else of the statement: they must not depend on
+	// other calls of the statement (there is only this one) — bind and run
+	outs := x.inlineOuts(fr, call, cf, st, effs)
+	var res []c06Out
+	for _, o := range outs {
+		if o.st == nil || o.st.env == nil {
+			continue
+		}
+		if o.kind != 3 || !o.hasRet {
+			x.undecided("%s can end without returning a value at %s", cf.Name, x.c.P.Pos(call.Pos()))
+			return nil
+		}
+		if e.callVal == nil {
+			e.callVal = map[*ast.CallExpr]c05Lin{}
+		}
+		e.callVal[call] = o.ret
+		e.transfer(fr, o.st, s)
+		delete(e.callVal, call)
+		res = append(res, c06Out{kind: 0, st: o.st, effs: o.effs})
+	}
+	return res
+}
+
 // inline executes a package function called on the terminal.
 func (x *c06X) inline(fr *c05Frame, call *ast.CallExpr, cf *FuncInfo, st *c05State, effs []c06Eff) []c06Out {
+	outs := x.inlineOuts(fr, call, cf, st, effs)
+	for i := range outs {
+		if outs[i].kind == 3 {
+			outs[i].kind = 0
+		} else if outs[i].kind != 0 {
+			x.undecided("break/continue leaves %s", cf.Name)
+		}
+	}
+	return outs
+}
+
+// inlineOuts: the outcomes of the callee's body (return outcomes keep kind 3 and their value).
+func (x *c06X) inlineOuts(fr *c05Frame, call *ast.CallExpr, cf *FuncInfo, st *c05State, effs []c06Eff) []c06Out {
 	e := x.e
 	if x.depth > 4 {
 		x.undecided("call depth")
@@ -1095,31 +1278,177 @@ func (x *c06X) inline(fr *c05Frame, call *ast.CallExpr, cf *FuncInfo, st *c05Sta
 	x.depth++
 	outs := x.execList(nf, cf.Decl.Body.List, st, effs)
 	x.depth--
-	for i := range outs {
-		if outs[i].kind == 3 {
-			outs[i].kind = 0
-		} else if outs[i].kind != 0 {
-			x.undecided("break/continue leaves %s", cf.Name)
-		}
-	}
 	return outs
 }
 
 // c06GridCell: the X[r][c] part of an lvalue rooted in a screen, or nil.
+// Local aliases are seen through: a pointer bound once to a cell (p := &X[r][c]; p.Style = ...) and a row bound
+// once (line := X[r]; line[c].Style = ...), provided nothing their index expressions read is assigned in the
+// block that declares the alias. For a row alias the result is a synthesised X[r][c] whose parts are the
+// original (typed) expressions.
 func c06GridCell(e *c05Eng, fr *c05Frame, lhs ast.Expr) *ast.IndexExpr {
 	for cur := unparen(lhs); ; {
 		switch t := cur.(type) {
 		case *ast.SelectorExpr:
 			cur = unparen(t.X)
 			continue
+		case *ast.StarExpr:
+			cur = unparen(t.X)
+			continue
+		case *ast.Ident:
+			// p := &X[r][c]
+			if e.cellT == nil || fr.fi == nil || cur == unparen(lhs) {
+				return nil // (the pointer variable itself is not a cell)
+			}
+			pt, ok := fr.info.TypeOf(t).Underlying().(*types.Pointer)
+			if !ok || !types.Identical(pt.Elem(), e.cellT) {
+				return nil
+			}
+			def := c06AliasDef(fr, t)
+			if def == nil {
+				return nil
+			}
+			u, ok := unparen(def).(*ast.UnaryExpr)
+			if !ok || u.Op != token.AND {
+				return nil
+			}
+			if ix, ok := unparen(u.X).(*ast.IndexExpr); ok && e.isRow(fr.info.TypeOf(ix.X)) {
+				return c06RowAlias(e, fr, ix)
+			}
+			return nil
 		case *ast.IndexExpr:
 			if e.isRow(fr.info.TypeOf(t.X)) {
-				return t
+				return c06RowAlias(e, fr, t)
 			}
 			return nil
 		}
 		return nil
 	}
+}
+
+// c06RowAlias: line[c] with `line := X[r]` bound once becomes X[r][c].
+func c06RowAlias(e *c05Eng, fr *c05Frame, t *ast.IndexExpr) *ast.IndexExpr {
+	id, ok := unparen(t.X).(*ast.Ident)
+	if !ok || fr.fi == nil {
+		return t
+	}
+	def := c06AliasDef(fr, id)
+	if def == nil {
+		return t
+	}
+	if rix, ok := unparen(def).(*ast.IndexExpr); ok && e.isGrid(fr.info.TypeOf(rix.X)) {
+		return &ast.IndexExpr{X: rix, Lbrack: t.Lbrack, Index: t.Index, Rbrack: t.Rbrack}
+	}
+	return t
+}
+
+// c06AliasDef: the right-hand side of the only definition of the local id (`id := rhs` / `var id = rhs`), when the
+// variable is never assigned again, its address is not taken, and no variable the right-hand side reads is
+// assigned inside the block that contains the definition (so the alias denotes the same place at every use in
+// its scope). nil otherwise.
+func c06AliasDef(fr *c05Frame, id *ast.Ident) ast.Expr {
+	info := fr.info
+	obj, ok := info.ObjectOf(id).(*types.Var)
+	if !ok || obj.IsField() || fr.fi == nil || fr.fi.Decl.Body == nil {
+		return nil
+	}
+	body := fr.fi.Decl.Body
+	if obj.Pos() < body.Pos() || obj.Pos() > body.End() {
+		return nil
+	}
+	var rhs ast.Expr
+	var defStmt ast.Node
+	defs := 0
+	var stack []ast.Node
+	var defBlock *ast.BlockStmt
+	ast.Inspect(body, func(n ast.Node) bool {
+		if n == nil {
+			stack = stack[:len(stack)-1]
+			return true
+		}
+		stack = append(stack, n)
+		switch t := n.(type) {
+		case *ast.AssignStmt:
+			for i, l := range t.Lhs {
+				lid, isId := unparen(l).(*ast.Ident)
+				if !isId || info.ObjectOf(lid) != obj {
+					continue
+				}
+				defs++
+				if t.Tok == token.DEFINE && len(t.Lhs) == len(t.Rhs) {
+					rhs, defStmt = t.Rhs[i], t
+					for j := len(stack) - 1; j >= 0; j-- {
+						if b, ok := stack[j].(*ast.BlockStmt); ok {
+							defBlock = b
+							break
+						}
+						if cc, ok := stack[j].(*ast.CaseClause); ok {
+							defBlock = &ast.BlockStmt{List: cc.Body}
+							break
+						}
+					}
+				} else {
+					defs++
+				}
+			}
+		case *ast.ValueSpec:
+			for i, nm := range t.Names {
+				if info.Defs[nm] == obj {
+					defs++
+					if len(t.Values) == len(t.Names) {
+						rhs, defStmt = t.Values[i], t
+						for j := len(stack) - 1; j >= 0; j-- {
+							if b, ok := stack[j].(*ast.BlockStmt); ok {
+								defBlock = b
+								break
+							}
+						}
+					} else {
+						defs++
+					}
+				}
+			}
+		case *ast.IncDecStmt:
+			if lid, ok := unparen(t.X).(*ast.Ident); ok && info.ObjectOf(lid) == obj {
+				defs += 2
+			}
+		case *ast.UnaryExpr:
+			if lid, ok := unparen(t.X).(*ast.Ident); ok && t.Op == token.AND && info.ObjectOf(lid) == obj {
+				defs += 2
+			}
+		case *ast.RangeStmt:
+			for _, kx := range []ast.Expr{t.Key, t.Value} {
+				if lid, ok := kx.(*ast.Ident); ok && info.ObjectOf(lid) == obj {
+					defs += 2
+				}
+			}
+		}
+		return true
+	})
+	if defs != 1 || rhs == nil || defBlock == nil || defStmt == nil {
+		return nil
+	}
+	// nothing the right-hand side reads changes while the alias is in scope
+	assigned := c06AssignedIn(info, defBlock)
+	for o := range objsIn(info, rhs) {
+		if assigned[o] {
+			return nil
+		}
+	}
+	// calls in the right-hand side (other than conversions/len) would make it more than a place
+	pure := true
+	ast.Inspect(rhs, func(n ast.Node) bool {
+		if call, ok := n.(*ast.CallExpr); ok {
+			if tv, ok := info.Types[call.Fun]; !ok || !tv.IsType() {
+				pure = false
+			}
+		}
+		return pure
+	})
+	if !pure {
+		return nil
+	}
+	return rhs
 }
 
 // blankEffect recognises  X[r][c].Character.Grapheme = " "  (blankG),  X[r][c].Style = <pen style>  (blankS)
